@@ -525,6 +525,7 @@ void c16MakeTables(std::string const& f, std::size_t c, QpSparseArray<double>& n
 bool c16BoxOp(std::vector<std::string> const& t, std::string& out);
 bool c16SimplexOp(std::vector<std::string> const& t, std::string& out);      // c16x.cpp
 bool c16McLinOp(std::vector<std::string> const& t, std::string& out);        // c16l.cpp
+bool c16EpochOp(std::vector<std::string> const& t, std::string& out);        // c16e.cpp (must see `mldata` first; returns false for it)
 
 int main(int argc, char** argv){
 	std::string line;
@@ -558,7 +559,8 @@ int main(int argc, char** argv){
 			std::cout << doLinearTrain(t) << std::endl;
 		}else{
 			std::string out;
-			if(c16McLinOp(t, out)) std::cout << out << std::endl;
+			if(c16EpochOp(t, out)) std::cout << out << std::endl;
+			else if(c16McLinOp(t, out)) std::cout << out << std::endl;
 			else if(c16SimplexOp(t, out)) std::cout << out << std::endl;
 			else if(c16BoxOp(t, out)) std::cout << out << std::endl;
 			else std::cout << "bad-op\n";
